@@ -2,6 +2,7 @@ package world
 
 import (
 	"sort"
+	"strings"
 
 	"errsim/gen"
 	"errsim/obs"
@@ -135,4 +136,67 @@ func ShortPayload(a *types.Any, keep int) *types.Any {
 		return mustAny(&errorspb.TagsPayload{Tags: m.Tags[:keep]})
 	}
 	return nil
+}
+
+// ForeignArchErrno rewrites every errno payload of an encoded error as if
+// it had been sent by a peer of the same OS on another architecture whose
+// errno numbering differs: the Arch field names that architecture and the
+// number is shifted, while the text, the safe details and the predicate
+// flags stay what the sender computed. A correct receiver keeps such an
+// errno as an OpaqueErrno (text and predicates preserved) instead of
+// reviving the number with its own table. It returns the number of payloads
+// rewritten.
+func ForeignArchErrno(data []byte) ([]byte, int) {
+	enc, err := ParseWire(data)
+	if err != nil {
+		return data, 0
+	}
+	n := 0
+	var walk func(e *errorspb.EncodedError)
+	fix := func(d *errorspb.EncodedErrorDetails) {
+		if d.FullDetails == nil {
+			return
+		}
+		var da types.DynamicAny
+		if err := types.UnmarshalAny(d.FullDetails, &da); err != nil {
+			return
+		}
+		switch m := da.Message.(type) {
+		case *errorspb.ErrnoPayload:
+			goos := m.Arch
+			if i := strings.IndexByte(goos, ':'); i >= 0 {
+				goos = goos[:i]
+			}
+			m.Arch = goos + ":mips64"
+			m.OrigErrno += 40
+			d.FullDetails = mustAny(m)
+			n++
+		case *errorspb.EncodedError:
+			walk(m)
+			d.FullDetails = mustAny(m)
+		}
+	}
+	walk = func(e *errorspb.EncodedError) {
+		switch {
+		case e.GetWrapper() != nil:
+			fix(&e.GetWrapper().Details)
+			walk(&e.GetWrapper().Cause)
+		case e.GetLeaf() != nil:
+			fix(&e.GetLeaf().Details)
+			for _, c := range e.GetLeaf().MultierrorCauses {
+				if c != nil {
+					walk(c)
+				}
+			}
+		}
+	}
+	walk(enc)
+	if n == 0 {
+		return data, 0
+	}
+	out, err := enc.Marshal()
+	if err != nil {
+		return data, 0
+	}
+	return out, n
 }
